@@ -92,6 +92,12 @@ CHECKS = {
             "record equals the supplied names, make_unchecked is verbatim, the hook runs once per instance and fails as ConvertError-with-cause on data paths; all ordered pairs of "
             "paths are run as construct / mutate-default / construct histories.",
             "Field kinds and argument values are fixed lists; classes pane refuses at creation are skipped."),
+    'C15': ("exhaustive enumeration of the naming/layout decision table (configuration cube x key subsets x sequence lengths) on real generated classes; reference naming model",
+            "3 120 class configurations (26 class-naming x 10 field-naming settings x allow_extra x three in_format settings x kw-only placement) are generated as real classes and fed "
+            "every mapping over all key subsets (size <= 2, thorough <= 3) of the candidate-name universe - so every alias/rename/duplicate/unknown/missing combination occurs - with "
+            "valid and ill-kinded values, every sequence length 0..max+1 as list and tuple, and str/bytes look-alikes; verdict, bound values, set-field record and output form are "
+            "compared with the reference model whose names are computed from the user's configuration.",
+            "Reference naming rules transcribed from docs/using/dataclasses.md and the field() docstring; Python-name-next-to-rename cells are UNSPEC."),
     'C19': ("exhaustive enumeration of value pool x sink kind x source kind x the full formatting-option cube on the real IO functions under a non-UTF-8 locale, with pane.io.open recorded; "
             "bounded multi-document write histories",
             "Every pooled typed value is written and read back through every sink/source kind pairing and every one of the 8 JSON and 1 152 YAML option settings (quick: full cube on "
